@@ -103,6 +103,12 @@ def run(chk, prog):
     # ---- arguments
     rev = [bb for bb, t in F.calls() if callee_short(t) in ('[T]::reverse', 'Vec::reverse')]
     pops = [bb for bb, t in F.calls() if callee_short(t) == 'StoryState::pop_evaluation_stack']
+    if not pops:
+        # `(0..n).map(|_| self.get_state_mut().pop_evaluation_stack()).collect::<Result<Vec<_>, _>>()?`: the pop sits in a
+        # closure handed to an iterator adaptor; it is represented by the block in which the adaptor is called
+        for c_ in prog.closures_of(F):
+            if any(callee_short(t) == 'StoryState::pop_evaluation_stack' for _, t in c_.calls()):
+                pops += [bb for bb, t in F.calls() if c_.p in (t['f'].get('closures') or [])]
     pushes = [bb for bb, t in F.calls() if callee_short(t) == 'StoryState::push_evaluation_stack']
     if chk.anchor(R2, 'pop_evaluation_stack loop in ' + F.short, pops) and chk.anchor(R2, 'reverse() of the arguments', rev):
         w = gf.feasible_path([pops[0]], lambda b: b == call_bb, avoid=rev)
